@@ -684,6 +684,7 @@ int disasm_arm64(
           if (v == 1)
           {
             size |= ((opcode >> 23) & 1) << 2;
+            if (size >= (int)sizeof(scalar_size)) { continue; }
             reg_name = scalar_size[size];
           }
 
